@@ -4,6 +4,7 @@ pub mod output_manager;
 pub mod project_scanner;
 
 use crate::analysis::CommandAnalyzer;
+use crate::generators::base::file_writer::FileWriter;
 use crate::generators::create_generator;
 use crate::interface::config::{ConfigError, GenerateConfig};
 use crate::interface::output::{Logger, ProgressReporter};
@@ -280,17 +281,15 @@ impl BuildSystem {
         commands: &[crate::models::CommandInfo],
         output_path: &str,
     ) -> Result<(), Box<dyn std::error::Error>> {
-        use std::fs;
-
         self.logger.debug("Generating dependency visualization");
 
         let text_viz = analyzer.visualize_dependencies(commands);
         let viz_file_path = Path::new(output_path).join("dependency-graph.txt");
-        fs::write(&viz_file_path, text_viz)?;
+        FileWriter::write_or_remove(&viz_file_path, &text_viz)?;
 
         let dot_viz = analyzer.generate_dot_graph(commands);
         let dot_file_path = Path::new(output_path).join("dependency-graph.dot");
-        fs::write(&dot_file_path, dot_viz)?;
+        FileWriter::write_or_remove(&dot_file_path, &dot_viz)?;
 
         self.logger.verbose(&format!(
             "Generated dependency graphs: {} and {}",
